@@ -121,7 +121,7 @@ Proof.
 Qed.
 
 Lemma trim_rev_suffix rl e out : trim_rev rl e = Ok out -> exists k, out = skipn k rl.
-Proof. revert out; induction rl as [|p t IH]; intros out H; [discriminate|]. cbn in H.
+Proof. revert out; induction rl as [|p t IH]; intros out H; [injection H as <-; exists 0%nat; reflexivity|]. cbn in H.
   destruct (negb (is_pair p) && negb (le_any p e)).
   - destruct (IH out H) as (k & ->). exists (S k). reflexivity.
   - injection H as <-. exists 0%nat. reflexivity. Qed.
